@@ -22,7 +22,7 @@ MANIFEST = dict(
     design="5/C04")
 INVS = ["TypeOK", "PokeRejected", "EqExact", "EqReflexive", "EqTransitive"]
 PROPS = ["Frozen", "DerivedRight"]
-ALL = ["flat", "flat2", "cont", "nest", "gen", "genraw", "miss"]
+ALL = ["flat", "flat2", "cont", "deep", "nest", "gen", "genraw", "miss"]
 
 
 class Flat(State):
@@ -38,6 +38,11 @@ class Cont(State):
     xs: Sequence[int]
     ss: Set[int]
     m: Mapping[str, int]
+
+
+class Deep(State):
+    rows: Sequence[Sequence[int]]
+    idx: Mapping[str, Sequence[int]]
 
 
 class Nest(State):
@@ -63,6 +68,10 @@ def make(cls, v):
     if cls == "cont":
         ext = (list(range(1, v + 1)), set(range(1, v + 1)), {f"k{i}": i for i in range(1, v + 1)})
         return Cont(xs=ext[0], ss=ext[1], m=ext[2]), ext
+    if cls == "deep":
+        # immutable on top (a tuple), mutable below: the inner lists are what gets mutated later
+        ext = (tuple(list(range(1, v + 1)) for _ in range(2)), {"k": list(range(1, v + 1))})
+        return Deep(rows=ext[0], idx=ext[1]), ext
     if cls == "nest":
         return Nest(inner=Flat(a=v, b="x")), None
     if cls == "gen":
@@ -85,6 +94,11 @@ def value_of(cls, o):
         ok = tuple(o.xs) == tuple(range(1, n + 1)) and set(o.ss) == set(range(1, n + 1)) and \
             dict(o.m) == {f"k{i}": i for i in range(1, n + 1)} and set(d) == {"xs", "ss", "m"}
         return n if ok else f"odd {d!r}"
+    if cls == "deep":
+        n = len(o.rows[0])
+        want = tuple(range(1, n + 1))
+        ok = len(o.rows) == 2 and all(tuple(r) == want for r in o.rows) and set(o.idx) == {"k"} and tuple(o.idx["k"]) == want
+        return n if ok else f"odd {d!r}"
     if cls == "nest":
         ok = o.opt is None and isinstance(o.inner, Flat) and o.inner.b == "x"
         return o.inner.a if ok else f"odd {d!r}"
@@ -96,7 +110,7 @@ def value_of(cls, o):
     raise ValueError(cls)
 
 
-ATTR = {"flat": "a", "flat2": "a", "cont": "xs", "nest": "inner", "gen": "v", "genraw": "v", "miss": "w"}
+ATTR = {"flat": "a", "flat2": "a", "cont": "xs", "deep": "rows", "nest": "inner", "gen": "v", "genraw": "v", "miss": "w"}
 
 
 class HeapDriver:
@@ -125,6 +139,12 @@ class HeapDriver:
                 return self._o(how, "AttributeError")
             except Exception as e:  # noqa: BLE001
                 return self._o(how, type(e).__name__)
+        if name == "MutateInput" and cls == "deep":
+            k = len(ext[0][0]) + 1
+            for row in ext[0]:
+                row.append(k)
+            ext[1]["k"].append(k)
+            return self._o("mutated", args[0])
         if name == "MutateInput":
             k = len(ext[0]) + 1
             ext[0].append(k)
@@ -166,6 +186,8 @@ class HeapDriver:
             return o.updated(a=nv)
         if cls == "cont":
             return o.updated(xs=list(range(1, nv + 1)), ss=set(range(1, nv + 1)), m={f"k{i}": i for i in range(1, nv + 1)})
+        if cls == "deep":
+            return o.updated(rows=tuple(list(range(1, nv + 1)) for _ in range(2)), idx={"k": list(range(1, nv + 1))})
         if cls == "nest":
             return o.updated(inner=Flat(a=nv, b="x"))
         if cls in ("gen", "genraw"):
